@@ -63,7 +63,7 @@ func H_C08_skip() {
 	vxrt.Flag("test.count", "1")
 
 	// the package has four tests; each may be skipped through the wrappers or run
-	tests := []string{"TestA", "TestA/sub", "TestAB", "TestC", "Test1", "TestOX"}
+	tests := []string{"TestA", "TestA/sub", "TestA/sub/deep", "TestAB", "TestC", "Test1", "TestOX"}
 	bodies := map[string]string{}
 	content := ""
 	for _, tn := range tests {
@@ -93,6 +93,12 @@ func H_C08_skip() {
 	writeFile(ppath, frame("TestP/c - 1", "pc"))
 	vxrt.TestSources(vxrt.Dir()+"/p_test.go", "TestP")
 	cp := WithConfig(Dir(dir), Filename("p_test"), Update(false))
+
+	// z_test.go declares only a fuzz target, which skips through the wrapper in skip mode;
+	// its snapshot file must be protected like any other
+	zpath := dir + "/z_test.snap"
+	writeFile(zpath, frame("FuzzZ - 1", "fz"))
+	vxrt.TestSources(vxrt.Dir()+"/z_test.go", "FuzzZ")
 
 	// a second test file in the same package whose test always runs, so that the
 	// snapshot directory is visited by Clean
@@ -136,10 +142,10 @@ func H_C08_skip() {
 		}
 		for _, tn := range tests {
 			t := newT(tn)
-			skipped := tn == "TestA" && skipA || tn == "TestA/sub" && (skipA || skipSub) || tn == "TestC" && skipC || tn == "TestAB" && skipAB || tn == "Test1" && skip1 || tn == "TestOX" && skipOX
+			skipped := tn == "TestA" && skipA || (tn == "TestA/sub" || tn == "TestA/sub/deep") && (skipA || skipSub) || tn == "TestC" && skipC || tn == "TestAB" && skipAB || tn == "Test1" && skip1 || tn == "TestOX" && skipOX
 			if skipped {
 				// a descendant of a skipped test does not even start
-				if !(tn == "TestA/sub" && skipA) {
+				if !(tn == "TestA/sub" && skipA) && tn != "TestA/sub/deep" {
 					doSkip(t)
 				}
 				continue
@@ -166,7 +172,7 @@ func H_C08_skip() {
 		}
 		if vxrt.Bool("second-level") {
 			// a sub-test level: /b, /c or /sub
-			pattern += "/" + []string{"b", "c", "sub"}[vxrt.Choice("second-level-literal", 3)]
+			pattern += "/" + []string{"b", "c", "sub", "deep"}[vxrt.Choice("second-level-literal", 4)]
 		}
 		vxrt.Flag("test.run", pattern)
 		if vxrt.Param("known_K4", 0) == 1 {
@@ -186,6 +192,9 @@ func H_C08_skip() {
 			if tn == "TestA/sub" && !runSelects(pattern, "TestA") {
 				continue
 			}
+			if tn == "TestA/sub/deep" && !(runSelects(pattern, "TestA") && runSelects(pattern, "TestA/sub")) {
+				continue
+			}
 			t := newT(tn)
 			if tn == "TestC" && vxrt.Bool("selected-test-skips") {
 				// a test that -run selects but that skips itself through the wrapper
@@ -203,6 +212,9 @@ func H_C08_skip() {
 		}
 	}
 	anyRan := len(ran) > 0
+	if mode == 0 {
+		SkipNow(newT("FuzzZ"))
+	}
 	if mode == 0 {
 		// TestP runs (it stores nothing itself); its sub-test c either skips through the wrapper or runs
 		tc := newT("TestP/c")
@@ -243,6 +255,9 @@ func H_C08_skip() {
 			vxrt.Assert(!stillThere, "C08:skip-does-not-protect-prefix-sibling")
 			vxrt.Assert(strings.Contains(out, bulletSymbol+"TestAB - 2\n"), "C08:stale-entry-of-prefix-sibling-reported")
 		}
+	}
+	if mode == 0 {
+		vxrt.Assert(readFile(zpath) == frame("FuzzZ - 1", "fz"), "C08:file-of-skipped-fuzz-target-kept")
 	}
 	if mode == 0 {
 		// p_test.snap is either addressed or protected by the skip of TestP/c
